@@ -670,8 +670,8 @@ static void stream_case(Run &r, Ctx &x, int idlen)
 // Part D: mpt_connection_dispatch() — the dispatcher that arms the deferrable reply context with its real transports
 // (replyConnection -> mpt_stream_reply for a stream backed connection, mpt_outdata_reply for a datagram socket).
 // =====================================================================
-enum CScript { C_NONE, C_REPLY, C_REPLY_TWICE, C_CREPLY, C_DEFER_REPLY, C_DEFER_RELEASE, C_DISCARD, C_REPLY_BIG, C_NSCRIPT };
-static const char *cscriptnm[] = {"no answer", "reply(msg)", "reply(msg) twice", "mpt_context_reply", "defer(), handle.reply(msg) after the dispatch", "defer(), handle released after the dispatch", "dispatch without handler (discard)", "reply(300 byte msg)"};
+enum CScript { C_NONE, C_REPLY, C_REPLY_TWICE, C_CREPLY, C_DEFER_REPLY, C_DEFER_RELEASE, C_DISCARD, C_REPLY_BIG, C_ECHO, C_NSCRIPT };
+static const char *cscriptnm[] = {"no answer", "reply(msg)", "reply(msg) twice", "mpt_context_reply", "defer(), handle.reply(msg) after the dispatch", "defer(), handle released after the dispatch", "dispatch without handler (discard)", "reply(300 byte msg)", "reply(the request message itself)"};
 struct CReq { std::vector<uint8_t> id; bool wants; int script; bool fail; int r1, r2; bool handled, had_ctx; int onwire, delivered; mpt::reply_context_detached *handle; };
 struct CCase { std::vector<CReq> rq; int stray; };
 static int conn_handler(void *arg, mpt::event *ev)
@@ -693,10 +693,12 @@ static int conn_handler(void *arg, mpt::event *ev)
 	case C_REPLY_TWICE: q.r1 = LIB(rc->reply(&m)); q.r2 = LIB(rc->reply(&m)); break;
 	case C_CREPLY: q.r1 = LIB(mpt::mpt_context_reply(rc, 3, "%s", "text")); break;
 	case C_REPLY_BIG: { static uint8_t big[300]; memset(big, 'B', sizeof big); big[0] = mpt::msgtype::Answer; big[1] = 0; mpt::message mb(big, sizeof big); q.r1 = LIB(rc->reply(&mb)); break; }
+	case C_ECHO: q.r1 = LIB(rc->reply(ev->msg)); break;
 	case C_DEFER_REPLY: case C_DEFER_RELEASE: q.handle = LIB(rc->defer()); break;
 	}
 	return q.fail ? mpt::BadOperation : 0;
 }
+static int own_reply_handler(void *, const mpt::message *) { return 0; }
 static void conn_case(Run &r, Ctx &x, int idlen, bool dgram)
 {
 	CCase c; c.stray = 0;
@@ -708,10 +710,13 @@ static void conn_case(Run &r, Ctx &x, int idlen, bool dgram)
 		c.rq.push_back(q);
 	}
 	bool together = !dgram && n > 1 && x.choose(2) != 0;
-	size_t pad = dgram && x.choose(2) ? 98 : 0;    // request content of 2 or 100 bytes
+	static const size_t pads[] = {0, 98, 39998};
+	size_t pad = dgram ? pads[x.choose(3)] : 0;    // request content of 2, 100 or 40000 bytes
+	bool own = dgram && x.choose(2) != 0;           // afterwards the connection sends a request of its own (await + push)
 	bool handles_first = x.choose(2) != 0;          // deferred handles are used before / after the connection dispatched everything
 	const char *grp = dgram ? "dgram" : "conn";
-	std::string desc = fmt("%s connection idlen=%d%s%s%s:", dgram ? "datagram" : "stream backed", idlen, together ? " both requests queued before dispatch" : "", handles_first ? "" : ", handles used after all dispatches", pad ? ", 100 byte requests" : "");
+	std::string desc = fmt("%s connection idlen=%d%s%s%s:", dgram ? "datagram" : "stream backed", idlen, together ? " both requests queued before dispatch" : "", handles_first ? "" : ", handles used after all dispatches", pad ? fmt(", %zu byte requests", pad + 2).c_str() : "");
+	if (own) desc += " then own request 'ping'";
 	for (auto &q : c.rq) desc += " [id " + hex(q.id.data(), idlen) + ", " + cscriptnm[q.script] + (q.fail && q.script != C_DISCARD ? ", handler returns an error" : "") + "]";
 	r.note("%s", desc.c_str());
 	++r.transitions;
@@ -764,10 +769,16 @@ static void conn_case(Run &r, Ctx &x, int idlen, bool dgram)
 		}
 		for (auto &q : c.rq) use_handle(q);
 	}
+	int own_ret = 0; uint32_t own_id = 0;
+	if (own) {
+		own_ret = LIB(mpt::mpt_connection_await(con, own_reply_handler, 0));
+		own_id = con->cid;
+		if (own_ret >= 0 && (own_ret = (int) LIB(mpt::mpt_connection_push(con, 4, "ping"))) >= 0) own_ret = (int) LIB(mpt::mpt_connection_push(con, 0, 0));
+	}
 	if (srm) LIB(mpt::mpt_stream_flush(srm));
 	std::vector<std::vector<uint8_t>> msgs; bool garbled = false; std::string wtxt = " wire:";
 	if (dgram) {
-		for (int i = 0; i < 8; ++i) { uint8_t b[2048]; ssize_t g = read(sv[1], b, sizeof b); if (g < 0) break; msgs.push_back(std::vector<uint8_t>(b, b + g)); wtxt += " [" + hex(b, g) + "]"; }
+		for (int i = 0; i < 8; ++i) { uint8_t b[2048]; ssize_t g = read(sv[1], b, sizeof b); if (g < 0) break; msgs.push_back(std::vector<uint8_t>(b, b + g)); wtxt += " [" + hex(b, std::min<ssize_t>(g, 32)) + (g > 32 ? fmt("..%zd bytes", g) : std::string()) + "]"; }
 	} else {
 		uint8_t wire[4096]; ssize_t got = read(sv[1], wire, sizeof wire); if (got < 0) got = 0;
 		wtxt += " " + hex(wire, got);
@@ -781,6 +792,20 @@ static void conn_case(Run &r, Ctx &x, int idlen, bool dgram)
 	size_t leaked = ledger_live();
 	if (!ok) { r.incomplete("short write on the socketpair"); return; }
 	if (mem) { r.violation(std::string(grp) + ".dispatch|any|memory", desc + " invalid memory access (AddressSanitizer)"); return; }
+	if (own) {
+		// the last datagram is the connection's own request: header = its new id (read back with the header width), not marked, then the payload
+		if (own_ret < 0 || !own_id) r.count("dgram: own request after the dispatch refused (not flagged)");
+		else {
+			uint64_t back = ~(uint64_t) 0;
+			if (msgs.empty() || (int) msgs.back().size() < idlen) { r.violation("dgram.request|after-dispatch|not-sent", desc + " own request was accepted but no datagram with an id arrived;" + wtxt); return; }
+			std::vector<uint8_t> m = msgs.back(); msgs.pop_back();
+			mpt::mpt_message_buf2id(m.data(), idlen, &back);
+			if ((m[0] & 0x80) || back != own_id || m.size() != (size_t) idlen + 4 || memcmp(m.data() + idlen, "ping", 4)) {
+				r.violation("dgram.request|after-dispatch|wrong-header", desc + fmt(" own request id %u + 'ping' went out as ", own_id) + hex(m.data(), std::min<size_t>(m.size(), 24)) + fmt("%s (%zu bytes): header reads back as id 0x%llx", m.size() > 24 ? ".." : "", m.size(), (unsigned long long) back)); return;
+			}
+			r.count("dgram: own request after the dispatches carries its own id");
+		}
+	}
 	for (auto &m : msgs) {
 		if ((int) m.size() < idlen) { r.violation(std::string(grp) + ".reply|any|unknown-id", desc + " message shorter than an id on the wire;" + wtxt); return; }
 		std::vector<uint8_t> id(m.begin(), m.begin() + idlen);
@@ -821,8 +846,8 @@ static void conn_case(Run &r, Ctx &x, int idlen, bool dgram)
 // mpt_connection_await does); replies arrive on a stream and are delivered by mpt_connection_dispatch (stream branch)
 // or by mpt_stream_sync.  Every case runs in a forked child (a spinning sync would otherwise stall the explorer).
 // =====================================================================
-enum RLetter { R_ID1, R_ID2, R_UNKNOWN, R_ID1_AGAIN, R_TOOWIDE, R_NLETTER };
-static const char *rletternm[] = {"reply for request 1", "reply for request 2", "reply for an id nobody waits for", "another reply for request 1", "reply whose id needs more than 64 bit"};
+enum RLetter { R_ID1, R_ID2, R_UNKNOWN, R_ID1_AGAIN, R_SHORT, R_EMPTY, R_TOOWIDE, R_NLETTER };
+static const char *rletternm[] = {"reply for request 1", "reply for request 2", "reply for an id nobody waits for", "another reply for request 1", "frame of the single byte 80 (shorter than an id)", "empty frame", "reply whose id needs more than 64 bit"};
 static const uint64_t PATTERN_ID = 0xAAAAAAAAAAAAAAAAULL;    // what an uninitialised 64 bit local holds in this build
 struct RCase { std::string log; };
 static RCase *g_rcase = 0;
@@ -857,7 +882,16 @@ static std::string req_child(int idlen, bool sync, const std::vector<int> &lette
 	static char A[] = "A1", B[] = "A2", P[] = "AP", N[] = "B1";
 	mpt::mpt_command_set((decltype(&con->_wait)) wait, 1, wait_handler, A);
 	mpt::mpt_command_set((decltype(&con->_wait)) wait, 2, wait_handler, B);
+	// requests whose ids are what uninitialised id bytes (pattern filled in this build) decode to
+	static char Q[] = "AQ";
 	if (idlen >= 9) mpt::mpt_command_set((decltype(&con->_wait)) wait, (uintptr_t) PATTERN_ID, wait_handler, P);
+	else {
+		uint64_t p1 = 0, p2 = 0;                      // frame 80 + (idlen-1) pattern bytes / idlen pattern bytes with the mark removed
+		for (int i = 1; i < idlen; ++i) p1 = p1 << 8 | 0xAA;
+		p2 = 0x2A; for (int i = 1; i < idlen; ++i) p2 = p2 << 8 | 0xAA;
+		if (p1) mpt::mpt_command_set((decltype(&con->_wait)) wait, (uintptr_t) p1, wait_handler, P);
+		mpt::mpt_command_set((decltype(&con->_wait)) wait, (uintptr_t) p2, wait_handler, Q);
+	}
 	// the peer's replies: header = id with reply mark, content = tag "t<k>"
 	int k = 0;
 	for (int l : letters) {
@@ -867,6 +901,8 @@ static std::string req_child(int idlen, bool sync, const std::vector<int> &lette
 		if (l == R_TOOWIDE) { std::fill(m.begin(), m.end(), 0); m[0] = 0x01; m[1] = 0x80; }
 		m[0] |= 0x80;
 		m.push_back('t'); m.push_back((uint8_t) ('0' + k++));
+		if (l == R_SHORT) { m.assign(1, 0x80); }
+		if (l == R_EMPTY) m.clear();
 		std::vector<uint8_t> e = cobs(m);
 		if (write(sv[1], e.data(), e.size()) != (ssize_t) e.size()) return "setup-failed";
 	}
@@ -921,6 +957,7 @@ static void req_case(Run &r, Ctx &x, int idlen)
 		size_t c2 = ev.find(':'); if (c2 == std::string::npos) continue;
 		std::string who = ev.substr(0, c2), tag = ev.substr(c2 + 1);
 		if (tag == "cancel") continue;
+		if (tag == "??") { r.violation(std::string(grp) + "|" + (letters.size() > 1 ? "two-replies" : "one-reply") + "|frame-without-id-delivered", desc + " a frame that carries no complete id was handed to request " + who + "; deliveries: " + out); return; }
 		std::string cls = letters.size() > 1 ? "two-replies" : "one-reply";
 		if (who == "B1") { r.violation(std::string(grp) + "|" + (after_rereg ? "id-reused" : cls) + "|delivered-to-later-request", desc + " the new request, which the peer never answered, received reply " + tag + "; deliveries: " + out); return; }
 		if (++seen[tag] > 1) { r.violation(std::string(grp) + "|" + cls + "|reply-delivered-twice", desc + " reply " + tag + " was delivered twice; deliveries: " + out); return; }
@@ -1007,7 +1044,8 @@ void mc_explore(Run &r, const std::string &job)
 		int l = atoi(job.c_str() + (dg ? 12 : 11));
 		for (int k = 0; k < C_NSCRIPT; ++k) r.require(std::string(dg ? "dgram: " : "conn: ") + cscriptnm[k] + ": exactly one reply on the wire, full id, marked");
 		r.require(std::string(dg ? "dgram: " : "conn: ") + "handler returned an error, exactly one reply on the wire");
-		if (l == 2) r.sample(fmt("%s connection idlen=2: 1..2 requests x {zero id, id} x 8 scripts (no answer, reply, reply twice, mpt_context_reply, defer+late reply, defer+release, dispatch without handler, 300 byte reply) x handler result {0, error} through mpt_connection_dispatch; replies read at the peer", dg ? "datagram" : "stream backed"));
+		if (dg) r.require("dgram: own request after the dispatches carries its own id");
+		if (l == 2) r.sample(fmt("%s connection idlen=2: 1..2 requests x {zero id, id} x 9 scripts (no answer, reply, reply twice, mpt_context_reply, defer+late reply, defer+release, dispatch without handler, 300 byte reply, echo of the request) x handler result {0, error} through mpt_connection_dispatch; replies read at the peer", dg ? "datagram" : "stream backed"));
 		dfs(r, [&](Ctx &x) { conn_case(r, x, l, dg); });
 		return;
 	}
